@@ -25,6 +25,7 @@
 #include "galois/substrate/PerThreadStorage.h"
 #include "galois/substrate/CompilerSpecific.h"
 #include "galois/substrate/PtrLock.h"
+#include "galois/substrate/Verif.h"
 #include "galois/Threads.h"
 #include "galois/worklists/WLCompileCheck.h"
 
@@ -111,6 +112,7 @@ public:
     retval->next        = 0;
     if (!C)
       return retval; // Only got one thing
+    GALOIS_VERIF_POINT(PTC_STEAL);
     prepend(C);
     return retval;
   }
@@ -143,6 +145,7 @@ public:
     retval->next        = 0;
     if (!C)
       return retval; // Only got one thing
+    GALOIS_VERIF_POINT(PTC_STEAL);
     prepend(C);
     return retval;
   }
@@ -205,6 +208,7 @@ public:
     retval->next        = 0;
     if (!C)
       return retval; // Only got one thing
+    GALOIS_VERIF_POINT(PTC_STEAL);
     prepend(C);
     return retval;
   }
@@ -236,6 +240,7 @@ public:
     retval->next        = 0;
     if (!C)
       return retval; // Only got one thing
+    GALOIS_VERIF_POINT(PTC_STEAL);
     prepend(C);
     return retval;
   }
@@ -395,6 +400,7 @@ public:
     if (n)
       delChunk(n);
     // get a new chunk
+    GALOIS_VERIF_POINT(PTC_POP_NEXT);
     n = static_cast<Chunk*>(worklist.pop());
     if (n && (retval = doPop(n)))
       return retval;
